@@ -48,12 +48,15 @@ func (r *RequireModule) resolve(modpath string) (module *js.Object, err error) {
 				return
 			}
 		}
-		if module = r.nodeModules[p]; module != nil {
+		// the search depends on both the starting directory and the name: "x/y" from /app and "y" from /app/x
+		// join to the same path but walk different node_modules directories
+		key := start + "\x00" + modpath
+		if module = r.nodeModules[key]; module != nil {
 			return
 		}
 		module, err = r.loadNodeModules(modpath, start)
 		if err == nil && module != nil {
-			r.nodeModules[p] = module
+			r.nodeModules[key] = module
 		}
 	}
 
